@@ -39,8 +39,8 @@ def _coef(v):
     if isinstance(v, (int, Fraction)):
         return G.const(v)
     if isinstance(v, float):
-        f = Fraction(v).limit_denominator(10 ** 5)
-        if abs(float(f) - v) > 1e-9 * max(1.0, abs(v)):
+        f = Fraction(v).limit_denominator(10 ** 4)
+        if abs(float(f) - v) > 1e-11 * max(1.0, abs(v)):
             raise ValueError('float')
         return G.const(f)
     if isinstance(v, sympy.Basic):
